@@ -28,7 +28,8 @@ rca, outa = sh(f'git -C {wt} apply {os.path.abspath(a.patch)}')
 rc1, out1 = sh(cmd)
 tests = {}
 if a.tests:
-    rct, outt = sh(f'{env} timeout 1500 /venv/bin/python -m pytest -q -p no:cacheprovider --timeout=900 {a.tests}')
+    # private network namespace: the suite binds fixed tcp ports, other runs on this machine would collide
+    rct, outt = sh(f"unshare -n sh -c 'ip link set lo up; {env} timeout 2400 /venv/bin/python -m pytest -q -p no:cacheprovider --timeout=900 {a.tests}'")
     tests = {'cmd': a.tests, 'rc': rct, 'tail': outt.strip().splitlines()[-3:]}
 sh(f'git -C /repo worktree remove --force {wt}'); shutil.rmtree(wt, ignore_errors=True)
 res = {'demo_without_patch_rc': rc0, 'patch_applies': rca == 0, 'demo_with_patch_rc': rc1}
